@@ -525,6 +525,120 @@ def special_cases():
     return cases
 
 
+# ------------------------------------------------------------------- CNFs produced by the CP encoder (18-60+ variables)
+
+ENC_CONFIGS = (
+    dict(),
+    dict(luby_factor=1),
+    dict(luby_factor=1, solution_limit=40),
+    dict(luby_factor=2, max_conflicts=30),
+    dict(luby_factor=1, max_restarts=3, solution_limit=5),
+)
+
+
+def judge_big(clauses, cfg, res, verdict, learned, analyze_calls, tap_on):
+    """Oracle for formulas too large for a truth table: reference DPLL for the verdict and for entailment."""
+    from solvor.types import Status
+
+    out = []
+    if verdict == "nontermination":
+        return [("C02", "nontermination", "solve_sat did not return within the fuel budget")]
+    if isinstance(verdict, str):
+        return [("C02", "raised", verdict)]
+    ref = satref.dpll(clauses)
+    returned = []
+    if res.solution is not None:
+        returned.append(("solution", res.solution))
+    if res.solutions is not None:
+        returned += [(f"solutions[{i}]", s_) for i, s_ in enumerate(res.solutions)]
+    for name, s_ in returned:
+        bad = satref.satisfies(s_, clauses)
+        if bad >= 0:
+            out.append(("C01", "not_a_model", f"{name} falsifies clause {list(clauses[bad])}"))
+            break
+    if res.solutions is not None:
+        keys = [tuple(sorted(s_.items())) for s_ in res.solutions]
+        if len(set(keys)) != len(keys):
+            out.append(("C01", "duplicate_models", "solutions contains the same assignment twice"))
+        if len(keys) > cfg.get("solution_limit", 1):
+            out.append(("C01", "too_many_models", f"{len(keys)} solutions for solution_limit={cfg.get('solution_limit', 1)}"))
+    if res.status == Status.INFEASIBLE and ref is not None:
+        out.append(("C02", "wrong_infeasible", "INFEASIBLE but the reference DPLL finds a model"))
+    if ref is None and res.solution is not None:
+        out.append(("C02", "model_for_unsat", "a model is reported but the reference DPLL proves the formula unsatisfiable"))
+    if ref is not None and res.status == Status.OPTIMAL and res.solution is None:
+        out.append(("C02", "no_model_returned", "status OPTIMAL without a model"))
+    if res.status == Status.MAX_ITER and tap_on:
+        need = min(cfg.get("max_conflicts", 100_000) - 1, restart_budget_conflicts(cfg))
+        if analyze_calls < need:
+            out.append(("C02", "max_iter_without_budget", f"MAX_ITER after {analyze_calls} analysed conflicts; budgets need >= {need}"))
+    if learned:
+        blocking = []
+        for _, s_ in returned:
+            blocking.append([(-v if b else v) for v, b in s_.items()])
+        for lc in learned[:60]:
+            if satref.dpll(list(clauses) + blocking, [-l for l in lc]) is not None:
+                out.append(("C02", "unimplied_learned_clause", f"learned clause {lc} is not entailed by the formula (blocked models excepted)"))
+                break
+    return out
+
+
+def _encoder_chunk(params, lo, hi):
+    import importlib
+
+    from checks import cplib
+    from checks.c05 import SPACES
+
+    pid, space, off, stride = params
+    enc = importlib.import_module("solvor.cp_encoder")
+    real = enc.solve_sat
+    captured = {}
+
+    def spy(clauses, **kw):
+        captured["cnf"] = [list(c) for c in clauses]
+        return real(clauses, **kw)
+
+    r = new_result()
+    enc.solve_sat = spy
+    try:
+        for idx in range(lo, hi):
+            doms, cons = SPACES[space][0](off + idx * stride)
+            m, xs, ok = cplib.make_model(doms, cons)
+            if not ok:
+                continue
+            captured.pop("cnf", None)
+            try:
+                m.solve(solver="sat")
+            except Exception:  # noqa: BLE001
+                continue
+            cnf = captured.get("cnf")
+            if not cnf:
+                continue
+            for cfg in ENC_CONFIGS:
+                c2 = dict(cfg, _guard=MEDIUM)
+                res, verdict, learned, ncalls, tap_on = call(cnf, c2)
+                r["n"] += 1
+                r["outcomes"]["encoder:" + classify(res, verdict, learned, ncalls)] += 1
+                if verdict == "nontermination":
+                    r["counters"]["hangs"] += 1
+                if learned:
+                    r["nontrivial"] += 1
+                    r["counters"]["cases_with_learned_clause"] += 1
+                    r["counters"]["learned_clauses_checked"] += min(len(learned), 60)
+                for p_, kind, detail in judge_big(cnf, cfg, res, verdict, learned, ncalls, tap_on):
+                    if p_ != pid:
+                        continue
+                    r["violations"].append({"function": "solve_sat", "predicates": [], "kind": kind, "witness": {"clauses": cnf, "config": dict(cfg)}, "detail": f"solve_sat(<CNF of CP model {space}#{off + idx * stride}: {len(cnf)} clauses>, {cfg}): {detail}"})
+            if not r["samples"]:
+                r["samples"].append({"cp_model_space": space, "index": off + idx * stride, "n_clauses": len(cnf), "n_vars": max(abs(l) for c in cnf for l in c)})
+            if len(r["violations"]) >= 20 or r["counters"]["hangs"] >= 2:
+                r["capped"] = True
+                break
+    finally:
+        enc.solve_sat = real
+    return r
+
+
 def make_jobs(pid, tier, seed):
     jobs = []
     n_core = len(formula_list(3, 3, 0, 4))
@@ -573,6 +687,13 @@ def make_jobs(pid, tier, seed):
     if tier == "thorough":
         t5 = (5, 3, 1, 3, 3)
         jobs.append(Job("u5_ternary_le3_x_light", len(formula_list(*t5)) * len(config_menu("light", 5)), _block_chunk, (pid, t5, "light", 5, 0), describe="clause-sets of <=3 of the 80 three-literal clauses on 5 variables"))
+    # CNFs produced by the CP encoder (the formulas on which learning, backjumping and restarts fire for real)
+    from checks.c05 import SPACES as CP_SPACES
+
+    for space, stride in (("cumulative3_window05", 1), ("cumulative4_window03", 4), ("circuit4", 4), ("sum4", 8), ("no_overlap3", 2)):
+        st = stride if tier == "quick" else max(1, stride // 4)
+        size = CP_SPACES[space][1]()
+        jobs.append(Job(f"encoder_cnf_{space}", (size - seed % st + st - 1) // st, _encoder_chunk, (pid, space, seed % st, st), describe=f"CNF captured from the CP encoder for every {st}-th model of '{space}' (offset rotates with VERIF_SEED) x 5 solver configurations; reference DPLL oracle"))
     # rotating extra block (complete enumeration of one block of the thorough space)
     if tier == "quick":
         n5 = len(formula_list(3, 3, 5, 5))
